@@ -66,6 +66,34 @@ theorem runLoopG_add (perf : Prog → PState → Outcome PState) (b : Nat) :
       | fatal s1 e1 => rfl
       | panic => rfl
 
+/-- **The loop never stops early of its own accord**: a run that ends normally with budget left over ended
+    because the exec stack was empty (the `break` of `run_to_completion`), whatever `perf` is. -/
+theorem runLoopG_done_early (perf : Prog → PState → Outcome PState) :
+    ∀ (fuel k : Nat) (s s' : PState) (k' : Nat),
+      runLoopG perf fuel k s = .done s' k' → k' < k + fuel → ∃ e, s'.exec.pop = .error e := by
+  intro fuel
+  induction fuel with
+  | zero => intro k s s' k' h hlt; simp [runLoopG] at h; omega
+  | succ n ih =>
+    intro k s s' k' h hlt
+    unfold runLoopG at h
+    split at h
+    · rename_i e he
+      simp at h; obtain ⟨rfl, rfl⟩ := h; exact ⟨e, he⟩
+    · split at h
+      · exact ih (k + 1) _ s' k' h (by omega)
+      · exact ih (k + 1) _ s' k' h (by omega)
+      · simp at h
+      · simp at h
+
+/-- a finished machine (empty exec stack) is a fixed point of the loop: running it again does nothing and
+    counts nothing -/
+theorem runLoopG_empty (perf : Prog → PState → Outcome PState) (fuel k : Nat) (s : PState) (e : StackErr)
+    (he : s.exec.pop = .error e) : runLoopG perf fuel k s = .done s k := by
+  cases fuel with
+  | zero => simp [runLoopG]
+  | succ n => rw [runLoopG]; simp [he]
+
 /-- the state reached when the loop ends (normally or by a fatal error) -/
 def RunResult.state? : RunResult → Option PState
   | .done s _ => some s
